@@ -17,6 +17,18 @@ def hexb(b):
     return b.hex() if b else "-"
 
 
+def many_bursts():
+    """More than a hundred burst events by one thread (the emulator keeps the last 100 to report their
+    median latency and starts over), with gaps below and above its 100 ns warning threshold."""
+    out = []
+    for nb, tick in ((101, 150), (150, 1000), (250, 10**6), (205, 10), (100, 1000), (99, 1000)):
+        ops = ["init", "cpu 0 0", "cpu 1 1", "ev 4f4878 now " + struct.pack("<iiQ", 0, -1, 0).hex(), "tick %d" % tick]
+        ops += ["ev 4f422e now"] * nb
+        ops += ["ev 4f4865 now", "flush", "free", "fini"]
+        out.append(" ; ".join(ops))
+    return out
+
+
 def gen_conformant(r, res):
     """Protocol-conformant program whose events the emulator understands:
     init, cpu, OHx, {bursts, marks, nOS-V type definitions as jumbos of any
@@ -196,7 +208,7 @@ def check(res, tier, replay=None):
             scripts = [l.strip() for l in open(replay) if l.strip() and not l.startswith("#")]
         else:
             n = 150 if tier == "quick" else 4000
-            scripts = [gen_conformant(r, res) for _ in range(n)] + top_sweep()
+            scripts = [gen_conformant(r, res) for _ in range(n)] + top_sweep() + many_bursts()
         found = c01.run_engine(res, prep, scripts, oracle_c02, "c02", extra=make_extra(prep.bdir, res))
         if not replay:
             # the same conformant programs when the streams are first written to OVNI_TMPDIR and relocated by
